@@ -303,6 +303,14 @@ func main() {
 		defer os.RemoveAll(dir)
 		build(dir)
 		fmt.Println("setup ok")
+	case "build":
+		// debugging aid: build the worker binary into a directory and keep it
+		if len(os.Args) < 3 {
+			die2("usage: vcheck build <dir>")
+		}
+		os.MkdirAll(os.Args[2], 0o755)
+		bin, _ := build(os.Args[2])
+		fmt.Println(bin)
 	case "replay":
 		if len(os.Args) < 3 {
 			die2("usage: vcheck replay <file>")
